@@ -26,6 +26,8 @@ func init() {
 func runC08(c *Ctx) {
 	c.Rule("C08.B1", "every index/slice/binary read on peer bytes is within the guarded length", 60)
 	c.Rule("C08.B4", "peer-sized allocations only after the announced bytes have arrived", 6)
+	c.Rule("C08.B10", "HTTP/2: a peer's SETTINGS values are range-checked before they are applied (a frame size of 0 or 2^31 would wedge the writers)", 4)
+	defer c18SettingsValidated(c, "C08.B10")
 	c.Rule("C08.B5", "no panic in decoders; third-party parsers only under recover; IO loops and workers under recover", 12)
 	c.Rule("C08.B6", "decode failure is local: error reply on the stream or close of the connection", 4)
 	c.Rule("C08.B9", "a decoder that returns a frame consumes exactly that frame: Drain amount <= Len and equal to the guarded frame length (no re-decode loop)", 20)
